@@ -218,6 +218,18 @@ func (r *Runner) Fork(sn Snapshot, c Choice, must bool) {
 		return
 	}
 	r.model("save")
+	// the model's slot table is part of what "restore" rewinds: rewind the record of what was declared with it
+	declaredAtSave := map[string]bool{}
+	for k := range r.declared {
+		declaredAtSave[k] = true
+	}
+	rewind := func() {
+		r.model("restore")
+		r.declared = map[string]bool{}
+		for k := range declaredAtSave {
+			r.declared[k] = true
+		}
+	}
 	if r.Model != nil {
 		r.record(line, restoredLine(fs), r.model(c.modelLine()))
 	}
@@ -231,7 +243,7 @@ func (r *Runner) Fork(sn Snapshot, c Choice, must bool) {
 		if f2 == nil {
 			return "err"
 		}
-		r.model("restore")
+		rewind()
 		r.model(c.modelLine())
 		impl, mdl := r.probe(f2, "get", 920000+i, o)
 		r.record(fmt.Sprintf("fork get %d (own store, %s)", o, why), impl, mdl)
@@ -289,7 +301,7 @@ func (r *Runner) Fork(sn Snapshot, c Choice, must bool) {
 			check(objs[i], own(i, objs[i], "no spare block left"), false)
 		}
 	}
-	r.model("restore")
+	rewind()
 	if !r.Failed {
 		r.Script, r.Impl, r.Mdl = r.Script[:nScript], r.Impl[:nImpl], r.Mdl[:nImpl]
 	}
